@@ -432,8 +432,8 @@ PROPS["C17"] = dict(
     explanation="A reader that stores into the shared topology races with every other reader whatever the schedule, so the MMU check decides the "
                 "topology part independently of the bound; schedules matter for the process-wide state (component registry, cached environment "
                 "variables), which is where the scheduling points are.",
-    bounds={"quick": "readers: 2 threads, 3 topologies, all 45 unordered pairs of 9 battery groups, preemption bound 2; independent: 2 threads, all 10 unordered pairs of 4 histories, preemption bound 1",
-            "thorough": "readers: 3 threads, 6 topologies, all 165 unordered triples, bound 3; independent: 3 threads, all 20 triples, bound 2 (tuples that exceed the budget are reported with the bound they completed)"},
+    bounds={"quick": "readers: 2 threads, 3 topologies each as loaded and annotated+restricted+refreshed, all 45 unordered pairs of 9 battery groups, preemption bound 2; independent: 2 threads, all 10 unordered pairs of 4 histories, preemption bound 1",
+            "thorough": "readers: 3 threads, 6 topologies in both variants, all 165 unordered triples, bound 3; independent: 3 threads, all 20 triples, bound 2 (tuples that exceed the budget are reported with the bound they completed)"},
     assumptions=COMMON_ASSUMPTIONS + ["sequentially consistent memory: weak-memory reorderings are not modelled",
                                       "races are detected on the library's own global variables and on the shared topology; libc, libxml2 (the built-in XML backend is forced) and the kernel are trusted",
                                       "an access to a global from inside a system call does not trap (none is known in the library)",
